@@ -175,6 +175,16 @@ def disc_compare(chk, flat, shape, rec, key):
                 if not np.array_equal(a, to_arr(flat, shape, a.dtype), equal_nan=True):
                     chk.violation(f'{name}:the data array is left as it was given', {'property': 'C15', 'part': 'disc', 'name': name, 'axis': axis}, f'{name} modified its input array')
                     a = to_arr(flat, shape, a.dtype)
+                if a.dtype == np.float64 and key % 4 == 1:
+                    # the same array in units of 1.1 (values with no exact single-precision image): every discriminant is homogeneous of degree one
+                    # under a positive factor, so the result is 1.1 x the specification's (to float64 rounding), whatever arrays were reduced before
+                    with warnings.catch_warnings():
+                        warnings.simplefilter('ignore')
+                        got11 = np.asarray(getattr(scared, name)(a * 1.1, axis=axis), dtype='float64')
+                    if got11.shape != want.shape or not np.allclose(got11, want * 1.1, rtol=1e-13, atol=1e-15, equal_nan=True):
+                        chk.violation(f'{name}:reduces exactly the requested axis with NaN entries ignored (float64 values)', {'property': 'C15', 'part': 'disc', 'array': (a * 1.1).tolist(), 'axis': axis, 'name': name,
+                                                                                                                              'got': got11.tolist(), 'expected': (want * 1.1).tolist()},
+                                      f'{name}(1.1 x {a.tolist()}, axis={axis}) = {got11.tolist()} expected {(want * 1.1).tolist()}')
                 if got.shape != want.shape or not np.array_equal(got, want, equal_nan=True):
                     chk.violation(f'{name}:reduces exactly the requested axis with NaN entries ignored', {'property': 'C15', 'part': 'disc', 'array': a.tolist(), 'axis': axis, 'name': name,
                                                                                                          'got': got.tolist(), 'expected': want.tolist()},
